@@ -162,7 +162,7 @@ structure ContState where
   lastSubrun : Option (Option Run) := some none
 deriving Repr
 
-def contStep (s : ContState) (c : Chunk) : Except Err ContState := do
+def contStepCore (s : ContState) (c : Chunk) : Except Err ContState := do
   let s := if s.lastRun != some c.runId then { s with lastEnd := none, lastSubrun := some none } else s
   let s ← if c.isSuperrun then
       match s.lastSubrun with
@@ -176,6 +176,10 @@ def contStep (s : ContState) (c : Chunk) : Except Err ContState := do
   | none => pure ()
   pure { lastEnd := some c.stop, lastRun := some c.runId,
          lastSubrun := if c.isSuperrun then some c.lastSubrun else none }
+
+/-- `chunk.is_superrun` raises `AttributeError` on a chunk with sub-runs and `run_id = None` (`Chunk.isSuperrunBad`) -/
+def contStep (s : ContState) (c : Chunk) : Except Err ContState :=
+  if c.isSuperrunBad then .error .other else contStepCore s c
 
 def continuityCheck (cs : List Chunk) : Except Err Unit :=
   (cs.foldlM contStep ({} : ContState)) *> pure ()
